@@ -20,14 +20,13 @@ T_NoLoss(o) ==
   \A i \in TIdx(o) : (o[i].op = "recv" /\ o[i].res = "err" /\ ~OwnClose(o, o[i].side, i)) =>
      \A j \in 1 .. (i - 1) : (o[j].op = "send" /\ o[j].side = Oth(o[i].side) /\ o[j].res = "ok") =>
         \E m \in 1 .. (i - 1) : o[m].op = "recv" /\ o[m].side = o[i].side /\ o[m].res = "val" /\ o[m].v = o[j].v
-(* an end that closed refuses to send and to receive and reports itself as not connected;    *)
-(* closing again is an error on the socket transports                                        *)
+(* an end that closed refuses to send and to receive and reports itself as not connected     *)
+(* (what a second Close returns is left to the implementation)                               *)
 T_ClosedRefuses(o, kind) ==
   \A i \in TIdx(o) : (\E j \in 1 .. (i - 1) : o[j].op = "close" /\ o[j].side = o[i].side /\ o[j].res = "ok") =>
      CASE o[i].op = "send" -> o[i].res = "err"
        [] o[i].op = "recv" -> o[i].res = "err"
        [] o[i].op = "conn" -> o[i].res = "n"
-       [] o[i].op = "close" -> (kind = "inproc" \/ o[i].res = "err")
        [] OTHER -> TRUE
 (* once an end has closed, the other end is not left waiting: what it receives is what was still  *)
 (* queued for it, or the error, never a timeout (a receive that timed out BEFORE the close poisons *)
